@@ -63,7 +63,7 @@ class C12(Prop):
     id = 'C12'
     driver = 'drv_C12'
     model = 'C12'
-    level = 'partial'
+    level = 'proof'
     search_scale = 2
     level_text = ('Machine-checked Coq theorems, every one for ALL deterministic engines (the generator is a universally quantified '
                   'function seed -> n -> 64-bit word): boost::uuids::to_string of every 16-byte value (no condition on the bytes) is 36 characters '
